@@ -9,7 +9,10 @@ import Vflow.Spec.Sites
 * IPFIX / NetFlow v9 (`Props/C02Flow`): `ipfix_terminates`, `v9_terminates` (the fuel `decode`
   supplies, `length + 1`, always suffices: every loop iteration consumes at least one octet — the F2
   repair makes this true), `*_record_bound` (records ≤ octets), `*_template_size`, `*_alloc_bound`
-  (fields decoded ≤ octets × largest template, a template parsed from n octets has ≤ n/4 fields).
+  (fields decoded ≤ octets × largest template, a template parsed from n octets has ≤ n/4 fields), and the
+  linear bounds that isolate finding K4: `*_record_fields_le_octets` (fields of a record ≤ octets it consumed +
+  zero-length specifiers of its template), `*_fields_linear` (fields ≤ octets + records × Z), `*_fields_le_octets`
+  (no zero-length specifier ⇒ fields ≤ octets).
 * sFlow (`Props/C02Sflow`): `decode_ne_fuel`, `samples_le`, `records_le`, `alloc_linear`.
 * NetFlow v5 (here): structural recursion (no fuel), `v5_flow_bound`.
 * Over regenerated facts: `alloc_sites_reviewed` — the make/new/append calls of the decoder packages
@@ -65,5 +68,58 @@ theorem ipfix_record_bound (c : Cache) (addr bs : Bytes) :
     (Ipfix.recordsOf (Ipfix.decode c addr bs).1).length ≤ bs.length := C02Flow.ipfix_record_bound c addr bs
 theorem v9_record_bound (c : Cache) (addr bs : Bytes) :
     (V9.recordsOf (V9.decode c addr bs).1).length ≤ bs.length := C02Flow.v9_record_bound c addr bs
+
+/-! re-stated linear allocation bounds (proved in `Props/C02Flow`, helper lemmas in `Proofs/LinearIpfix`,
+`Proofs/LinearV9`); `zeroSpecs tr` = number of field specifiers of length 0 of `tr` — finding K4: such a
+specifier is decoded without consuming an octet — and `Z` bounds it for every template in force during the
+decode (the cache before the datagram, `hc`; every template record that parses at some offset of it, `hP`) -/
+
+/-- **C02 per record (IPFIX; K4)**: fields of a decoded record ≤ octets it consumed + zero-length specifiers -/
+theorem ipfix_record_fields_le_octets (tr : Template) (r r' : Rd) (fs : Record)
+    (h : Ipfix.decodeData tr r = (.ok fs, r')) : fs.length ≤ (r'.cnt - r.cnt) + zeroSpecs tr :=
+  C02Flow.ipfix_record_fields_le_octets tr r r' fs h
+
+/-- **C02 per record (NetFlow v9; K4)** -/
+theorem v9_record_fields_le_octets (tr : Template) (r r' : Rd) (fs : Record)
+    (h : V9.decodeData tr r = (.ok fs, r')) : fs.length ≤ (r'.cnt - r.cnt) + zeroSpecs tr :=
+  C02Flow.v9_record_fields_le_octets tr r r' fs h
+
+/-- **C02 allocation, linear (IPFIX; K4)**: decoded fields ≤ octets + records × Z -/
+theorem ipfix_fields_linear (c : Cache) (addr bs : Bytes) (Z : Nat)
+    (hc : ∀ e ∈ c, zeroSpecs e.2 ≤ Z)
+    (hP : ∀ k t r', k ≤ bs.length →
+      (Ipfix.parseTpl ⟨bs.drop k, k⟩ = (.ok t, r') ∨ Ipfix.parseOptTpl ⟨bs.drop k, k⟩ = (.ok t, r')) →
+      zeroSpecs t ≤ Z) :
+    ((Ipfix.recordsOf (Ipfix.decode c addr bs).1).map List.length).sum
+      ≤ bs.length + (Ipfix.recordsOf (Ipfix.decode c addr bs).1).length * Z :=
+  (C02Flow.ipfix_fields_linear c addr bs Z hc hP).1
+
+/-- **C02 allocation, linear (NetFlow v9; K4)** -/
+theorem v9_fields_linear (c : Cache) (addr bs : Bytes) (Z : Nat)
+    (hc : ∀ e ∈ c, zeroSpecs e.2 ≤ Z)
+    (hP : ∀ k t r', k ≤ bs.length →
+      (V9.parseTpl ⟨bs.drop k, k⟩ = (.ok t, r') ∨ V9.parseOptTpl ⟨bs.drop k, k⟩ = (.ok t, r')) →
+      zeroSpecs t ≤ Z) :
+    ((V9.recordsOf (V9.decode c addr bs).1).map List.length).sum
+      ≤ bs.length + (V9.recordsOf (V9.decode c addr bs).1).length * Z :=
+  (C02Flow.v9_fields_linear c addr bs Z hc hP).1
+
+/-- **C02 allocation, no zero-length specifier (IPFIX)**: decoded fields ≤ octets of the datagram -/
+theorem ipfix_fields_le_octets (c : Cache) (addr bs : Bytes)
+    (hc : ∀ e ∈ c, zeroSpecs e.2 = 0)
+    (hP : ∀ k t r', k ≤ bs.length →
+      (Ipfix.parseTpl ⟨bs.drop k, k⟩ = (.ok t, r') ∨ Ipfix.parseOptTpl ⟨bs.drop k, k⟩ = (.ok t, r')) →
+      zeroSpecs t = 0) :
+    ((Ipfix.recordsOf (Ipfix.decode c addr bs).1).map List.length).sum ≤ bs.length :=
+  C02Flow.ipfix_fields_le_octets c addr bs hc hP
+
+/-- **C02 allocation, no zero-length specifier (NetFlow v9)** -/
+theorem v9_fields_le_octets (c : Cache) (addr bs : Bytes)
+    (hc : ∀ e ∈ c, zeroSpecs e.2 = 0)
+    (hP : ∀ k t r', k ≤ bs.length →
+      (V9.parseTpl ⟨bs.drop k, k⟩ = (.ok t, r') ∨ V9.parseOptTpl ⟨bs.drop k, k⟩ = (.ok t, r')) →
+      zeroSpecs t = 0) :
+    ((V9.recordsOf (V9.decode c addr bs).1).map List.length).sum ≤ bs.length :=
+  C02Flow.v9_fields_le_octets c addr bs hc hP
 
 end Vflow.C02
